@@ -138,7 +138,7 @@ def triage(c, failed, prop, tier):
     witness = None
     if targets and c.gnext.keys() >= c.ghosts.keys() and any(u.state for u in c.units):
         try:
-            found, secs = prove.bmc(c, targets, c.bmc_depth, timeout_s=min(120, c.timeout_s * 2))
+            found, secs = prove.bmc(c, targets, c.bmc_depth, timeout_s=(45 if tier == 'quick' else 300))
         except Exception:
             found = {}
         best = None
@@ -174,6 +174,18 @@ def triage(c, failed, prop, tier):
         json.dump(doc, open(os.path.join(ROOT, path), "w"), indent=1, default=str)
         out.append((f, path, reproduced))
     return out
+
+
+_FAILED = {}
+
+
+def _triage_task(ci):
+    fl, prop, tier = _FAILED[ci]
+    try:
+        return triage(_CTX[ci], fl, prop, tier)
+    except Exception:
+        traceback.print_exc()
+        return [(f, "replays/none", False) for f in fl]
 
 
 def main(prop, tier, seed):
@@ -257,8 +269,15 @@ def main(prop, tier, seed):
     violations, known_lines = [], []
     kf = known_findings(prop)
     if failed and not broken:
-        for ci, fl in failed.items():
-            for f, path, reproduced in triage(ctxs[ci], fl, prop, tier):
+        global _FAILED
+        _FAILED = {ci: (fl, prop, tier) for ci, fl in failed.items()}
+        if len(failed) > 1 and os.environ.get("HWV_PROCS") != "1":
+            with ctx.Pool(min(8, len(failed))) as tpool:
+                tres = tpool.map(_triage_task, list(failed))
+        else:
+            tres = [_triage_task(ci) for ci in failed]
+        for tr in tres:
+            for f, path, reproduced in tr:
                 hit = [k for k in kf if any(fnmatch.fnmatch(f["name"], pat) for pat in k.get("obligations", []))]
                 if hit:
                     known_lines.append(f"KNOWN-FINDING: property={prop} {hit[0]['what']} [{f['name']}]")
